@@ -2,6 +2,7 @@
 import ast
 import copy
 import math
+import os
 from fractions import Fraction
 import z3
 from . import ty as T
@@ -268,6 +269,12 @@ def run_exec_contract(contract, env, call, universe=None, extra_helpers=None):
         if w:
             viol.append((f'raises[{lab}:must-raise]', f'returned {result!r} although {exc} is required'))
     post = base
+    if isinstance(result, SegmentResult):
+        # a segment run: its locals are visible to the clauses, under their own names and as final_<name>
+        for k, v in result.locals.items():
+            post[k] = v
+            post['final_' + k] = v
+        result = result.value
     post['result'] = result
     if base.get('__generator__'):
         post['Y'] = list(result)   # generator functions: the yielded sequence
@@ -282,3 +289,68 @@ def run_exec_contract(contract, env, call, universe=None, extra_helpers=None):
         if not ok:
             viol.append((f'post[{lab}]', f'result {result!r} violates: {c.src}'))
     return viol
+
+
+# ---------------------------------------------------------------------------------- segments, executed by CPython
+
+class SegmentResult:
+    """What running a contract segment on real objects produced: the returned value (None when the segment fell off
+    its end at the `stop_before` statement) and the locals at that point."""
+
+    def __init__(self, value, local_vars, stopped):
+        self.value = value
+        self.locals = local_vars
+        self.stopped = stopped
+
+
+def segment_callable(key, contract, root='/repo'):
+    """The statements of a segment contract (from the function's first statement, or `start_at`, up to `stop_before`),
+    cut mechanically out of the real source and compiled into a function of the parameters (plus the `live`
+    variables when the segment starts in the middle). It runs in a copy of the real module's namespace, so every name
+    resolves to the real callee. Returns f(**bindings) -> SegmentResult."""
+    import importlib
+    relpath, qual = key.split(':', 1)
+    qual = qual.split('@')[0]
+    text = open(os.path.join(root, relpath)).read()
+    tree = ast.parse(text)
+    node = tree
+    for part in qual.split('.'):
+        if part == '<locals>':
+            raise ValueError('segments of nested functions cannot be executed on their own')
+        node = next(ch for ch in ast.iter_child_nodes(node) if isinstance(ch, (ast.FunctionDef, ast.ClassDef)) and ch.name == part)
+    body = list(node.body)
+    if contract.get('start_at'):
+        idx = next(i for i, s in enumerate(body) if ast.unparse(s).startswith(contract['start_at']))
+        body = body[idx:]
+    if contract.get('stop_before'):
+        idx = next(i for i, s in enumerate(body) if ast.unparse(s).startswith(contract['stop_before']))
+        body = body[:idx]
+    params = [a.arg for a in node.args.args] + list(contract.get('live', {}))
+    src = 'def __segment__(' + ', '.join(params) + '):\n'
+    src += ''.join('    ' + line + '\n' for s in body for line in ast.unparse(s).splitlines())
+    src += '    return __SegmentStop__(locals())\n'
+    mod = importlib.import_module(relpath[:-3].replace('/', '.'))
+    ns = dict(vars(mod))
+
+    class _Stop:
+        def __init__(self, lv):
+            self.lv = dict(lv)
+    ns['__SegmentStop__'] = _Stop
+    exec(compile(src, f'<segment of {key}>', 'exec'), ns)
+    fn = ns['__segment__']
+    defaults = {}
+    nd = len(node.args.defaults)
+    for a, d in zip(node.args.args[len(node.args.args) - nd:], node.args.defaults):
+        try:
+            defaults[a.arg] = ast.literal_eval(d)
+        except Exception:
+            pass
+
+    def run(**bindings):
+        kw = dict(defaults)
+        kw.update(bindings)
+        r = fn(**{p: kw[p] for p in params})
+        if isinstance(r, _Stop):
+            return SegmentResult(None, r.lv, True)
+        return SegmentResult(r, {}, False)
+    return run
